@@ -40,6 +40,11 @@ impl ToUsizeSpec for u16 { open spec fn as_int(self) -> int { self as int } }
 impl ToUsizeSpec for u32 { open spec fn as_int(self) -> int { self as int } }
 impl ToUsizeSpec for usize { open spec fn as_int(self) -> int { self as int } }
 
+// fun_of(f): the mathematical function computed by the parser value f.  Parser values in this crate are
+// safe, state-free Rust (forbid(unsafe_code), no statics, no interior mutability), hence deterministic
+// functions of their input; that they terminate on every input is property C01 (checked by Kani).
+pub uninterp spec fn fun_of<'a, O, F: Fn(&'a [u8]) -> IResult<&'a [u8], O>>(f: F) -> spec_fn(&'a [u8]) -> IResult<&'a [u8], O>;
+
 // nom::bytes::streaming::take(count): streaming take over &[u8].
 // ASSUMED here; OBLIGATION of Kani harness shim_take (real nom, input <= 12 bytes, count full-domain).
 pub open spec fn take_post(count: int, i: Seq<u8>, r: IResult<&[u8], &[u8]>) -> bool {
@@ -58,6 +63,9 @@ pub fn take<'a, C: ToUsizeSpec>(count: C) -> (f: impl Fn(&'a [u8]) -> IResult<&'
     ensures
         forall|i: &'a [u8]| #[trigger] f.requires((i,)),
         forall|i: &'a [u8], r: IResult<&'a [u8], &'a [u8]>| #[trigger] f.ensures((i,), r) ==> take_post(count.as_int(), i@, r),
+        // ... and as a function (see fun_of below): total, deterministic, its value satisfies the same contract
+        forall|i: &'a [u8], r: IResult<&'a [u8], &'a [u8]>| #[trigger] f.ensures((i,), r) ==> r == fun_of(f)(i),
+        forall|i: &'a [u8]| take_post(count.as_int(), i@, #[trigger] fun_of(f)(i)),
 { |i: &'a [u8]| -> IResult<&'a [u8], &'a [u8]> { unimplemented!() } }
 
 // nom::number::streaming::be_u8 / be_u16 / be_u24 / be_u32 over &[u8].
@@ -123,11 +131,6 @@ pub fn length_data<'a, N: ToUsizeSpec, F: Fn(&'a [u8]) -> IResult<&'a [u8], N>>(
 // ASSUMED here; OBLIGATIONS of Kani harnesses shim_complete / shim_many1 / shim_many0 (real nom,
 // a cheap element parser, bounded input).
 // ---------------------------------------------------------------------------------------------
-// fun_of(f): the mathematical function computed by the parser value f.  Parser values in this crate are
-// safe, state-free Rust (forbid(unsafe_code), no statics, no interior mutability), hence deterministic
-// functions of their input; that they terminate on every input is property C01 (checked by Kani).
-pub uninterp spec fn fun_of<'a, O, F: Fn(&'a [u8]) -> IResult<&'a [u8], O>>(f: F) -> spec_fn(&'a [u8]) -> IResult<&'a [u8], O>;
-
 // a parser never returns a remainder longer than its input
 pub open spec fn nongrowing<'a, O>(p: spec_fn(&'a [u8]) -> IResult<&'a [u8], O>) -> bool {
     forall|j: &'a [u8]| (#[trigger] p(j)) is Ok ==> p(j)->Ok_0.0@.len() <= j@.len()
@@ -186,6 +189,8 @@ pub fn many1<'a, O, F: Fn(&'a [u8]) -> IResult<&'a [u8], O>>(f: F) -> (g: impl F
     ensures
         forall|i: &'a [u8]| #[trigger] g.requires((i,)),
         forall|i: &'a [u8], r: IResult<&'a [u8], Vec<O>>| #[trigger] g.ensures((i,), r) ==> many1_post(fun_of(f), i, r),
+        forall|i: &'a [u8], r: IResult<&'a [u8], Vec<O>>| #[trigger] g.ensures((i,), r) ==> r == fun_of(g)(i),
+        forall|i: &'a [u8]| many1_post(fun_of(f), i, #[trigger] fun_of(g)(i)),
 { |i: &'a [u8]| -> IResult<&'a [u8], Vec<O>> { unimplemented!() } }
 
 #[verifier::external_body]
@@ -194,11 +199,23 @@ pub fn many0<'a, O, F: Fn(&'a [u8]) -> IResult<&'a [u8], O>>(f: F) -> (g: impl F
     ensures
         forall|i: &'a [u8]| #[trigger] g.requires((i,)),
         forall|i: &'a [u8], r: IResult<&'a [u8], Vec<O>>| #[trigger] g.ensures((i,), r) ==> many0_post(fun_of(f), i, r),
+        forall|i: &'a [u8], r: IResult<&'a [u8], Vec<O>>| #[trigger] g.ensures((i,), r) ==> r == fun_of(g)(i),
+        forall|i: &'a [u8]| many0_post(fun_of(f), i, #[trigger] fun_of(g)(i)),
 { |i: &'a [u8]| -> IResult<&'a [u8], Vec<O>> { unimplemented!() } }
 
 // nom::combinator::map_parser(f, g): run f, then g on f's OUTPUT; f's remainder is kept, g's remainder is
 // dropped, errors of either are propagated unchanged.      [combinator/mod.rs]
 // ASSUMED here; OBLIGATION of Kani harness shim_map_parser (real nom, cheap inner parser, bounded input).
+pub open spec fn map_parser_fn<'a, O2>(pf: spec_fn(&'a [u8]) -> IResult<&'a [u8], &'a [u8]>, pg: spec_fn(&'a [u8]) -> IResult<&'a [u8], O2>, i: &'a [u8]) -> IResult<&'a [u8], O2> {
+    match pf(i) {
+        Ok((rem, o1)) => match pg(o1) {
+            Ok((_, o2)) => Ok((rem, o2)),
+            Err(e) => Err(e),
+        },
+        Err(e) => Err(e),
+    }
+}
+
 #[verifier::external_body]
 pub fn map_parser<'a, O2, F: Fn(&'a [u8]) -> IResult<&'a [u8], &'a [u8]>, G: Fn(&'a [u8]) -> IResult<&'a [u8], O2>>(f: F, g: G) -> (h: impl Fn(&'a [u8]) -> IResult<&'a [u8], O2>)
     requires forall|i: &'a [u8]| #[trigger] f.requires((i,)), forall|i: &'a [u8]| #[trigger] g.requires((i,)),
@@ -212,6 +229,10 @@ pub fn map_parser<'a, O2, F: Fn(&'a [u8]) -> IResult<&'a [u8], &'a [u8]>, G: Fn(
                 },
                 Err(e) => r == Err::<(&'a [u8], O2), Err<Error<&'a [u8]>>>(e),
             },
+        // the same statement without existentials, for parser values whose results are those of fun_of
+        ((forall|i: &'a [u8], r: IResult<&'a [u8], &'a [u8]>| #[trigger] f.ensures((i,), r) ==> r == fun_of(f)(i))
+         && (forall|i: &'a [u8], r: IResult<&'a [u8], O2>| #[trigger] g.ensures((i,), r) ==> r == fun_of(g)(i)))
+        ==> (forall|i: &'a [u8], r: IResult<&'a [u8], O2>| #[trigger] h.ensures((i,), r) ==> r == map_parser_fn(fun_of(f), fun_of(g), i)),
 { |i: &'a [u8]| -> IResult<&'a [u8], O2> { unimplemented!() } }
 
 // nom::combinator::map(p, f): run p, apply f to its output; remainder and errors unchanged.  [combinator/mod.rs]
